@@ -17,3 +17,14 @@ package compresshttp
 //@ func selectEncoding
 //@   property C11
 //@   nopanic
+//@
+//@ func CompressRequest$1
+//@   property C09
+//@   ghost cerr error = nil
+//@   ghost done bool = false
+//@   ghost closed bool = false
+//@   before call compress(enc, src, dst): assert @the_request_body_is_compressed_with_the_negotiated_encoding_into_the_pipe enc == encoding && src == iface(plain) && dst == iface(pw) && !done
+//@   on call compress(_, _, dst) ret (e): cerr = e; done = true
+//@   before call (*io.PipeWriter).CloseWithError(p, e): assert @a_failed_compression_fails_the_upload_instead_of_ending_it_early done && e == cerr
+//@   on call (*io.PipeWriter).CloseWithError(_, _) ret (x): closed = true
+//@   ensures @the_upload_stream_is_always_ended closed
